@@ -145,6 +145,18 @@ def check_unit(case, rec):
 @st.composite
 def payload_case(draw):
     case = draw(G.unit_case(CMDS, max_rank=3, max_cells=30, two_distinct=True, tiny=True, dtypes=("float64", "int64", "float64", "int64", "float32", "int32")))
+    if case["cmd"] in R.NARY and len(case["arrays"]) >= 3 and draw(st.integers(0, 5)) == 0:
+        # the leading inputs are complete layers of one extreme value each (fully true, fully false, all zero): whatever they
+        # settle about the value, a cell missing in a later input is missing in the result
+        v = draw(st.sampled_from([1, -1, 0]))
+        for spec in case["arrays"][:draw(st.integers(2, len(case["arrays"]) - 1))]:
+            spec["data"] = [type(spec["data"][0])(v)] * len(spec["data"])
+            spec["mask"] = None
+        last = case["arrays"][-1]
+        if last["mask"] is None or not any(last["mask"]):
+            hole = draw(st.integers(0, len(last["data"]) - 1))
+            last["mask"] = [1 if i == hole else 0 for i in range(len(last["data"]))]
+        case.pop("aliases", None)  # (every input is a result of its own here)
     p2 = []
     for spec in case["arrays"]:
         k = sum(spec["mask"]) if spec["mask"] is not None else 0
